@@ -5,8 +5,8 @@ Schemas of qxmpp stanza / nonza classes, transcribed from the C++ `toXml` + `fro
 order in which `toXml` writes, so `encode` reproduces the library's own output form.
 
 (Where the code differs from what C01 demands the convention is a second schema ending in `Code` that
-models the code as it is, e.g. with `Field.attrReadOnly`; at the pinned tree no class needs one:
-`FastFeature::toXml` writes `tls-0rtt` since /repo e3c2af8.)
+models the code as it is; `FastFeature::toXml` writes `tls-0rtt` since /repo e3c2af8, so that one is gone;
+`ResultSetReplyCode` is the one in use today.)
 No proofs here, no Mathlib.
 -/
 namespace Qx.Xml.Codec.Classes
@@ -35,12 +35,12 @@ def nsTm := s "urn:xmpp:tm:1"
 def nsRtcpFb := s "urn:xmpp:jingle:apps:rtp:rtcp-fb:0"
 
 /-- element written with `writeDefaultNamespace`, looked up by tag and namespace -/
-def declHead (tag : String) (ns : Str) : Head := ⟨s tag, ns, true, false, false⟩
+def declHead (tag : String) (ns : Str) : Head := ⟨s tag, ns, true, false, false, false⟩
 /-- element written without namespace declaration (inherits `ns` from its parent), looked up by tag
 and namespace -/
-def inhHead (tag : String) (ns : Str) : Head := ⟨s tag, ns, false, false, false⟩
+def inhHead (tag : String) (ns : Str) : Head := ⟨s tag, ns, false, false, false, false⟩
 /-- element written without namespace declaration, looked up by tag only -/
-def anyHead (tag : String) (ns : Str) : Head := ⟨s tag, ns, false, true, false⟩
+def anyHead (tag : String) (ns : Str) : Head := ⟨s tag, ns, false, true, false, false⟩
 
 /-- `x == u"true" || x == u"1"` / `parseBoolean(x).value_or(false)`; written as `true` -/
 def boolTrue1 : FTy := .flag [s "true", s "1"]
@@ -139,7 +139,7 @@ def Sasl2Abort := nonza (declHead "abort" nsSasl2) [.textChild (inhHead "text" n
 
 /-- `QXmppExtendedAddress` (src/base/QXmppStanza.cpp:281-301): no type check, no namespace written -/
 def ExtendedAddress : Schema := {
-  head := ⟨s "address", [], false, false, false⟩, check := .unchecked, inh := [],
+  head := ⟨s "address", [], false, false, false, false⟩, check := .unchecked, inh := [],
   fields := [.attr (s "delivered") (.flag [s "true"]) true, .attr (s "desc") .str true,
     .attr (s "jid") .str false, .attr (s "type") .str false] }
 
@@ -194,12 +194,12 @@ def OutOfBandUrl := unchecked (declHead "x" nsOob) [
   .textChild (anyHead "url" nsOob) .str false, .child (anyHead "desc" nsOob) [.text .str] .optional]
 
 /-- `QXmppPubSubAffiliation` (src/base/QXmppPubSubAffiliation.cpp:29-36, 147-162) -/
-def PubSubAffiliation := unchecked ⟨s "affiliation", [], false, false, false⟩ [
+def PubSubAffiliation := unchecked ⟨s "affiliation", [], false, false, false, false⟩ [
   .attr (s "affiliation") (.enumD (["none", "member", "outcast", "owner", "publisher", "publish-only"].map s) 0) false,
   .attr (s "node") .str true, .attr (s "jid") .str true]
 
 /-- `QXmppSdpParameter` (src/base/QXmppJingleData.cpp:2192-2208) -/
-def SdpParameter := unchecked ⟨s "parameter", [], false, false, false⟩ [
+def SdpParameter := unchecked ⟨s "parameter", [], false, false, false, false⟩ [
   .attr (s "name") .str true, .attr (s "value") .str true]
 
 /-- `QXmppJingleRtpFeedbackInterval` (src/base/QXmppJingleData.cpp:2651-2662) -/
@@ -242,9 +242,53 @@ def streamFeaturesFieldsWith (sasl2 : List Field) : List Field := [
 inside `<stream:stream xmlns="jabber:client" xmlns:stream=…>`; `head.ns` is the default namespace in
 scope for its children.  `parse` has no type check. -/
 def streamFeaturesWith (sasl2 : List Field) : Schema :=
-  { head := ⟨s "stream:features", nsClient, false, false, false⟩, fields := streamFeaturesFieldsWith sasl2,
+  { head := ⟨s "stream:features", nsClient, false, false, false, false⟩, fields := streamFeaturesFieldsWith sasl2,
     check := .unchecked, inh := nsClient }
 def StreamFeatures := streamFeaturesWith (sasl2StreamFeatureFieldsWith fastFeatureFields)
+
+/-! ### FAST token and SASL 2 success (src/base/QXmppSasl.cpp:331-350, 497-545); date-times: tier B -/
+
+def fastTokenFields : List Field := [.attr (s "expiry") .dateTime false, .attr (s "token") .str false]
+def FastToken := nonza (declHead "token" nsFast) fastTokenFields
+
+def Sasl2Success := nonza (declHead "success" nsSasl2) [
+  .child (inhHead "additional-data" nsSasl2) [.text .b64] .optional,
+  .textChild (inhHead "authorization-identifier" nsSasl2) .str false,
+  .child (declHead "bound" nsBind2) bind2BoundFields .optional,
+  .child (declHead "resumed" nsSm) smResumeFields .optional,
+  .child (declHead "failed" nsSm) smFailedFields .optional,
+  .child (declHead "token" nsFast) fastTokenFields .optional]
+
+/-! ### XEP-0059 result sets (src/base/QXmppResultSet.cpp:96-133, 210-247)
+
+`parse(el)` takes `el` itself when it is called `set`, else `el.firstChildElement("set")` (by tag alone), and
+reads it only if its namespace is the RSM one; `toXml` writes nothing when every part is unset.  Modelled as
+the `<set/>` child of an enclosing element (the harness supplies `<x>…</x>`); a root element that is
+itself called `set` is outside the model (the harness skips those documents).  The `int` members mean "value
+or unset" and are carried as `Option Nat`, every negative number being "unset": that is how `toXml` treats
+them (`>= 0`), but `isNull()` of today's code tests `== -1`, so an object holding e.g. -11 writes an empty
+`<set/>` where one holding -1 writes nothing.  Objects in such a state are outside these schemas (the harness
+keeps them out of the correspondence and leaves them to the fixpoint oracle, which fails on them: finding
+C02:not-fixpoint:ResultSetQuery); fixes/C01-resultset-count-and-unset.diff makes `isNull()` test `< 0`. -/
+
+def nsRsm := s "http://jabber.org/protocol/rsm"
+def rsmSet : Head := { tag := s "set", ns := nsRsm, decl := true, anyNs := true, nsAfter := true }
+def rsmHolder (fields : List Field) (mode : ChildMode) : Schema :=
+  { head := ⟨s "x", [], false, false, false, false⟩, fields := [.child rsmSet fields mode],
+    check := .unchecked, inh := [] }
+def rsmInt (tag : String) (ty : FTy) : Field := .child (anyHead tag nsRsm) [.text ty] .wrapOmit
+/-- `QString` that is written when not null: absent ⇔ null -/
+def rsmStr (tag : String) : Field := .child (anyHead tag nsRsm) [.text .str] .optional
+
+/-- `<set/>` is written iff some part is set, and an absent `<set/>` reads like an empty one -/
+def ResultSetQuery := rsmHolder [rsmInt "max" (.optInt 31), rsmStr "after", rsmStr "before", rsmInt "index" (.optInt 31)] .wrapOmit
+
+def rsmFirst : Field := .child (anyHead "first" nsRsm) [.attr (s "index") (.optInt 31) true, .text .str] .optional
+/-- today's `QXmppResultSetReply`: `<count/>` is read with `toInt()` and no fallback, so an absent or
+unparsable count becomes 0 instead of "unset" (src/base/QXmppResultSet.cpp:214) -/
+def ResultSetReplyCode := rsmHolder [rsmFirst, rsmStr "last", rsmInt "count" (.optIntZ 31)] .optional
+/-- with /verif/fixes/C01-resultset-count-and-unset.diff (count read like the other integers) -/
+def ResultSetReply := rsmHolder [rsmFirst, rsmStr "last", rsmInt "count" (.optInt 31)] .wrapOmit
 
 /-- every modelled class by the name the harness uses -/
 def all : List (String × Schema) := [
@@ -261,7 +305,8 @@ def all : List (String × Schema) := [
   ("PubSubAffiliation", PubSubAffiliation), ("SdpParameter", SdpParameter),
   ("RtpFeedbackInterval", RtpFeedbackInterval),
   ("TrustMessageKeyOwner", TrustMessageKeyOwner), ("TrustMessageElement", TrustMessageElement),
-  ("StreamFeatures", StreamFeatures)]
+  ("StreamFeatures", StreamFeatures), ("ResultSetQuery", ResultSetQuery), ("ResultSetReply", ResultSetReplyCode),
+  ("FastToken", FastToken), ("Sasl2Success", Sasl2Success)]
 
 def find (name : String) : Option Schema := (all.find? (·.1 == name)).map (·.2)
 
